@@ -123,3 +123,85 @@ def case_stage(ctx, which):
     ctx.obligation("correspondence: Model/CaseExpr.v (%s) = implementation on %d CASE checks" % ("case_json" if which == "C05" else "fmt_parts / reread", len(checks)), not bad and not n_fmt_diff)
     for i in bad[:5]:
         ctx.violation("input", dict(meta[i], broken="correspondence Model/CaseExpr.v vs implementation"), no_input=True)
+
+
+# ---------------------------------------------------------------------------------------------------------------------------------
+# the clause loops of Formatter.unordered_query / ordered_query (Model/QueryFmt.v, Props/C03q.v)
+THMS_Q = ["C03_clause_written_with_its_value", "C03_clause_sequence", "C03_clauses_written_once", "C04_key_order_irrelevant", "C03_nodupb_sound"]
+HEADER_Q = ("From Coq Require Import List ZArith String Bool.\nFrom MoSql Require Import Base.Json Model.QueryFmt.\nImport ListNotations.\n"
+            "Open Scope string_scope. Open Scope list_scope.\n"
+            "Fixpoint strs_eqb (a b : list string) : bool := match a, b with [], [] => true | x :: a', y :: b' => String.eqb x y && strs_eqb a' b' | _, _ => false end.\n")
+QUERIES = [
+    "select a from t where x limit 0 offset 0", "select a from t limit 0", "select a from t order by a offset 0 rows fetch first 0 rows only",
+    "select a from t union select b from u order by 1", "select a from t union all select b from u limit 0",
+    "with x as (select 1) select distinct a, b from t group by a having c fetch first 0 rows only",
+    "select a from (select b from u limit 0) t order by a", "select distinct on (a) b from t where 0 order by a limit 5",
+    "select * from t pivot (sum(x) for y in (1, 2)) where z", "select a, b from t where c = 0 group by a, b having count(*) > 0 order by a, b desc limit 10 offset 20",
+    "select 0", "select a from t where false", "select a from t group by 0", "with q as (select 0) select a from q limit 0",
+]
+
+
+def query_stage(ctx):
+    import mo_sql_parsing.formatting as F
+    M = impl.M
+    ctx.prove("Props.C03q", THMS_Q)
+    uo, oo = list(F.unordered_clauses), list(F.ordered_clauses)
+    rec, top = [], [None]
+    saved = {}
+
+    def wrap(name):
+        orig = getattr(F.Formatter, name)
+        saved[name] = orig
+
+        def w(self, json, prec, _o=orig, _n=name):
+            r = _o(self, json, prec)
+            if json is top[0]:
+                rec.append((_n, bool(r)))
+            return r
+        setattr(F.Formatter, name, w)
+    missing = [c for c in uo + oo if not callable(getattr(F.Formatter, c, None))]
+    ctx.obligation("every name of unordered_clauses / ordered_clauses is a renderer of Formatter", not missing, str(missing))
+    if missing:
+        ctx.violation("obligation", dict(broken="clause list names a renderer that does not exist: %s" % missing), no_input=True)
+        return
+    rnd = ctx.rng("queryfmt")
+    checks = ["nodupb (%s ++ %s)" % (clist([cstr(x) for x in uo]), clist([cstr(x) for x in oo]))]
+    meta = [dict(what="the live clause lists have no duplicate name", lists=[uo, oo])]
+    objs = []
+    for sql in QUERIES:
+        st, t = impl.outcome(M.parse, sql)
+        if st == "ok" and isinstance(t, dict):
+            objs.append((sql, t))
+            for _ in range(2):           # the same object with its keys in another order
+                ks = list(t.keys()); rnd.shuffle(ks)
+                objs.append((sql, {k: t[k] for k in ks}))
+    for c in uo + oo:
+        wrap(c)
+    try:
+        for sql, t in objs:
+            if not (set(t.keys()) & (set(uo) - {"from"})):
+                continue                 # set-operation expression with a tail / aggregate form: other branches of ordered_query, not modelled
+            top[0] = t; del rec[:]
+            st, s = impl.outcome(M.format, t)
+            ctx.count(1, sql + repr(list(t.keys())))
+            if st != "ok":
+                continue
+            empties = [n for n, ok in rec if not ok]
+            if empties:
+                ctx.violation("input", dict(sql=sql, tree=short(t, 400), formatted=s, observed="renderer(s) %s returned empty text: the clause is in the tree and is not written" % empties,
+                                            requires="format writes every clause of the tree"))
+            d = clist([cpair(cstr(k), "(JInt 0)") for k in t.keys()])
+            checks.append("strs_eqb (map fst (query_clauses %s %s %s)) %s" % (clist([cstr(x) for x in uo]), clist([cstr(x) for x in oo]), d, clist([cstr(n) for n, _ in rec])))
+            meta.append(dict(sql=sql, keys=list(t.keys()), renderers_called=[n for n, _ in rec], formatted=s, what="sequence of clause renderers called for the top-level object"))
+    finally:
+        for c, o in saved.items():
+            setattr(F.Formatter, c, o)
+    bad, log = l0.run_checks(ctx, "queryfmt", HEADER_Q, checks, shard=400)
+    if bad is None:
+        ctx.obligation("clause-loop correspondence evaluated", False, log[-2000:])
+        ctx.violation("obligation", dict(what="clause-loop correspondence could not be evaluated by coqc", log=log[-2000:]), no_input=True)
+        return
+    ctx.traces += len(checks)
+    ctx.obligation("correspondence: Model/QueryFmt.v query_clauses on the live clause lists = the renderers Formatter calls, on %d query objects (incl. zero counts and permuted keys)" % (len(checks) - 1), not bad)
+    for i in bad[:5]:
+        ctx.violation("input", dict(meta[i], broken="correspondence Model/QueryFmt.v vs Formatter.unordered_query / ordered_query"), no_input=True)
